@@ -10,11 +10,11 @@ from .lib.reachrule import ReachRule
 CONFIGS_QUICK = ["A"]
 CONFIGS_THOROUGH = ["A", "R", "ASYNCSTD", "SMOL", "NIO", "GLOMMIO", "NOAPI"]
 TECHNIQUE = "MIR call-graph reachability of panic/unsafe sinks from the request parser and accessors + guard audit; header/method literal tables; def-use of the read count"
-LEVEL_TEXT = ("Decides clauses C02-a/b/c/d: no panic sink and no unguarded unsafe operation is reachable from Request::read/read_payload (request line, "
-              "headers, Content-Length, body) or from the public request accessors (Path, Headers, Cookies) -- the accessors' UTF-8 expectations count as "
-              "discharged only if Request::read validates the same bytes before storing them; the request header table is case-consistent and recognised "
-              "case-insensitively, Method::from_bytes/as_str are inverse; the byte count returned by the first read bounds what is parsed. Decides these "
-              "clauses, not the faithfulness of every parsed field for all byte strings.")
+LEVEL_TEXT = ('Decides clauses C02-a/b/c/d: no panic sink and no unguarded unsafe operation is reachable from Request::read/read_payload (request line, headers, '
+              "Content-Length, body) or from the public request accessors (Path, Headers, Cookies) -- the accessors' UTF-8 expectations count as discharged only if "
+              'Request::read validates the same bytes before storing them; the request header table is case-consistent and recognised case-insensitively (and answers'
+              ' `custom header` only after every case-insensitive name comparison failed), Method::from_bytes/as_str are inverse; the byte count returned by the '
+              'first read bounds what is parsed. Decides these clauses, not the faithfulness of every parsed field for all byte strings.')
 
 STOP = [r"^ohkami::response::", r"<impl ohkami::response::Response>", r"<ohkami::response::Response as "]
 
@@ -138,6 +138,22 @@ def c02c(ck, prog):
     ck.ob(R, "from_bytes:case-insensitive", ok, g.loc(None),
           "" if ok else "Header::from_bytes matches literal spellings only (canonical and lower case): `Content-length: 5` is filed as a custom header, so the body is not read and is parsed as the next request",
           how="case-insensitive comparison reached (%d site(s))" % len(ci))
+    # ... and on every path: where recognition is a chain of eq_ignore_ascii_case tests, `None` (= custom header) is
+    # answered only after every one of them failed -- no shortcut may skip the case-insensitive comparison
+    chain = g.calls_to(r"eq_ignore_ascii_case$")
+    if chain:
+        nstd = len(chain)
+        nones = [(bb, kind) for bb, kind, _ in paths.ret_sites(g) if kind == "None"]
+        if not nones:
+            raise AnchorLost("Header::from_bytes has no `None` return site")
+        for i, (bb, kind) in enumerate(sorted(nones)):
+            failed = {fa.call.bb for fa in guards.facts_at(g, prog, bb) if fa.kind == "boolcall" and not fa.truth and fa.call.name == "eq_ignore_ascii_case"}
+            ok = len(failed) == nstd
+            ck.ob(R, "from_bytes:None-only-after-all-names-failed#%d" % i, ok, g.loc(g.blocks[bb]["t"].get("sp")),
+                  "" if ok else "Header::from_bytes can answer None (custom header) after only %d of its %d case-insensitive name comparisons failed: some spellings of a standard field name "
+                  "(RFC 9110 5.1: case-insensitive) are filed as custom headers, e.g. a Content-Length the body reader then does not see" % (len(failed), nstd),
+                  how="None dominated by the false edge of all %d eq_ignore_ascii_case tests" % nstd)
+        ck.floor(R, "case-insensitive name comparisons in from_bytes", nstd, 40)
     # Method: from_bytes and as_str inverse
     m = prog.one(r"^ohkami::request::method::Method::from_bytes$")
     madt = prog.adt(r"^ohkami::request::method::Method$")
